@@ -5,24 +5,45 @@ from ..core import Case
 from ..gen import hx, rbytes, edge_int
 from . import c08_link as L
 from . import c08_net as N
+from . import c10 as B
 
 ID = "C16"
 RULE = (
     "io.* operations: per header type ~50 values (quick) x EVERY failure position k in 0..=len+1 of a writer that accepts "
-    "exactly k bytes, every output slice capacity 0..=len+1 (+canary), per reader type ~50 byte strings x every failure "
+    "exactly k bytes (a third of the link / transport values also through LinkHeader::write / TransportHeader::write), "
+    "every output slice capacity 0..=len+1 (+canary), per reader type ~50 byte strings x every failure "
     "position of the reader, 2000 LimitedReader sessions (random op sequences over primitive and composite reads), "
-    "PacketBuilder paths x every k / capacity; non-trivial = distinct case whose complete encoding has at least 2 bytes "
-    "(sessions: at least 2 ops)"
+    "7 convenience PacketBuilder paths x every k / capacity; "
+    "io.skip.ext / io.skip.all (Ipv6Header::skip_header_extension / skip_all_header_extensions on a Read + Seek reader): "
+    "220 chains (quick) of 1-4 skippable extension headers (0, 43, 44, 51, 60, 135, 139, 140; arbitrary length bytes, fragment "
+    "header first / last, chains that go on behind the data) x EVERY failure position k in 0..=len+1 x EVERY truncation of the "
+    "data, plus all 256 first next-header values on short data x every k; "
+    "build.failw / build.slicebuf (C10's configuration grammar = every builder path): ~520 small-payload configurations (quick) "
+    "over start (ethernet2 | linux_sll | none) x VLAN (none | single_vlan | double_vlan | vlan(Single) | vlan(Double)) x net "
+    "(ipv4() | ipv6() | ip(IpHeaders::Ipv4 with options [+AH]) | ip(IpHeaders::Ipv6 + extension header sets) | arp) x final "
+    "step (udp | tcp | tcp+options | tcp_header | icmpv4 / icmpv6 constructors | raw write with an ip number), ICMPv6-in-IPv4 "
+    "and over-long payloads (the builder's own errors) included, x EVERY writer failure position k in 0..=len+1 and EVERY "
+    "slice capacity 0..=size+1 (+9), sampled around the layer boundaries above 140 bytes; "
+    "non-trivial = distinct case whose complete encoding / input has at least 2 bytes (sessions: at least 2 ops)"
 )
 EXPLANATION = (
-    "theorems: failing_writer / parts_flatten / slice_writer / builder_slice / failing_reader / limited_reader "
-    "(EpModel/Props/C16.lean) over the part-sequence and read-program models of EpModel/Model/Io.lean; correspondence: "
+    "theorems: failing_writer / parts_flatten / slice_writer / builder_slice / failing_reader / limited_reader / "
+    "skip_header_extension(_ok_iff) / skip_all_ok / skip_all_complete / skip_all_error / gbuilder_space_required / "
+    "gbuilder_slice_buffer / gbuilder_failing_writer / gbuilder_write_failing_ok_iff "
+    "(EpModel/Props/C16.lean) over the part-sequence and read-program models of EpModel/Model/Io.lean, the Read + Seek skip model "
+    "EpModel/Model/IoSkip.lean and the general builder model of C10 (EpModel/Model/Builder.lean + BuilderIo.lean); correspondence: "
     "every write/write_raw/write_to_slice/read/read_limited of the header types, Ipv4Extensions, Ipv6Extensions, IpHeaders, "
-    "LimitedReader and PacketBuilder paths run against an instrumented writer/reader/canary buffer; oracle on the "
+    "LimitedReader, the two reader-side skip functions and every PacketBuilder path (write into a failing writer, write_to_slice "
+    "into a canary buffer) run against an instrumented writer/reader/canary buffer; oracle on the "
     "implementation's outputs: written bytes are a prefix of the implementation's own complete encoding (and of a python "
     "reference encoding where one exists), never success below the complete length, error is the injected one, no call "
     "after the failure, canary intact, space error = complete length, reader never Ok below the needed length and never "
-    "consumes more than k, LimitedReader pulls <= max_len and keeps read_len <= max_len"
+    "consumes more than k, LimitedReader pulls <= max_len and keeps read_len <= max_len; skip: a python walk over the RFC "
+    "header lengths says whether every byte of the skipped header(s) lies in front of the failure position / end of data - "
+    "Ok(next header, position behind the headers) iff it does, otherwise the injected error / UnexpectedEof; builder: C10's "
+    "python reference builder gives the complete encoding, its length and the builder's own error - written is a prefix of it, "
+    "success only at full length, cap < length gives exactly Space(length) with only a prefix (the crate: nothing) written, "
+    "cap >= length gives the complete encoding and nothing behind it"
 )
 ASSUMPTIONS = [
     "the failing reader/writer fails permanently once its budget is used up (std::io::Read::read_exact leaves the state unspecified after an error)",
@@ -170,6 +191,9 @@ def exts_ref(vals, order):
     return b"".join(N.ref_encode(EXT_TYPE[k], vals[k]) for k in order)
 
 
+WRAPPED = {"eth2": "link.eth2", "sll": "link.sll", "udp": "tp.udp", "tcp": "tp.tcp", "icmpv4": "tp.icmpv4", "icmpv6": "tp.icmpv6"}
+
+
 def gen_write_cases(rng, tier):
     nval = 60 if tier == "quick" else 600
     # link / transport types of the C08 link half: one write_all (TCP: two)
@@ -179,6 +203,9 @@ def gen_write_cases(rng, tier):
             v = link_value(rng, t)
             n = t.hlen(v)
             yield write_case(name, t.args(v), ks_for(rng, n, (20,)), {"len": n, "final": "ok"})
+            if name in WRAPPED and i % 3 == 0:
+                # the same value through the enum wrapper (LinkHeader::write / TransportHeader::write)
+                yield write_case(WRAPPED[name], t.args(v), ks_for(rng, n, (20,)), {"len": n, "final": "ok"})
     # net types: python reference encoding available
     for t in ("ipv6", "ipv6frag", "auth", "rawext"):
         for i in range(nval):
@@ -669,6 +696,328 @@ def oracle_build_slice(c, out):
                 return
 
 
+
+# ----------------------------------------------------------------------------------------------
+# Read + Seek skipping of IPv6 extension headers (Ipv6Header::skip_header_extension /
+# skip_all_header_extensions)
+
+SKIPPABLE = (0, 43, 44, 51, 60, 135, 139, 140)
+NOT_SKIPPABLE = (17, 6, 58, 59, 50, 1, 4, 41, 253, 255, 45, 52, 134, 136, 141)
+
+
+def ext_header_len(nh, lenbyte):
+    """length of an extension header on the wire (RFC 8200 4.x: (n+1)*8, fragment: 8; RFC 4302: (n+2)*4)"""
+    if nh == 44:
+        return 8
+    if nh == 51:
+        return (lenbyte + 2) * 4
+    return (lenbyte + 1) * 8
+
+
+def gen_skip_chain(rng, i):
+    """(first next_header, bytes): a chain of 1-4 skippable headers with arbitrary length bytes"""
+    n = 1 + i % 4
+    kinds = [rng.choice(SKIPPABLE) for _ in range(n)]
+    if i % 7 == 0:
+        kinds[-1] = 44  # fragment header last (nothing behind it notices a cut)
+    if i % 11 == 3:
+        kinds[0] = 44
+    last = rng.choice(NOT_SKIPPABLE)
+    if i % 13 == 5:
+        last = rng.choice(SKIPPABLE)  # the chain goes on but the data does not
+    out = b""
+    for j, k in enumerate(kinds):
+        nxt = kinds[j + 1] if j + 1 < n else last
+        lb = rng.choice([0, 0, 0, 1, 1, 2, 3, rng.randrange(0, 6)])
+        if i % 29 == 17 and j == 0:
+            lb = rng.choice([255, 254, 31, rng.randrange(256)])
+        ln = ext_header_len(k, lb)
+        if k == 44:
+            # second byte of a fragment header is reserved: anything
+            out += bytes([nxt, rng.choice([0, 0, 1, 255, rng.randrange(256)])]) + rbytes(rng, 6)
+        else:
+            out += bytes([nxt, lb]) + rbytes(rng, ln - 2)
+    return kinds[0], out
+
+
+def skip_lines(nh, data, k):
+    return ["io.skip.ext\t%d\t%s\t%d" % (nh, hx(data), k), "io.skip.all\t%d\t%s\t%d" % (nh, hx(data), k)]
+
+
+def gen_skip_cases(rng, tier):
+    nchain = 220 if tier == "quick" else 3000
+    for i in range(nchain):
+        nh, d = gen_skip_chain(rng, i)
+        d = d + rbytes(rng, rng.choice([0, 0, 3, 9]))
+        marks = []
+        # header boundaries (reference walk) for sampling long chains
+        pos, cur = 0, nh
+        while cur in SKIPPABLE and pos + 2 <= len(d):
+            marks.append(pos)
+            marks.append(pos + 2)
+            ln = ext_header_len(cur, d[pos + 1])
+            cur = d[pos]
+            pos += ln
+        marks.append(pos)
+        ks = ks_for(rng, len(d), marks)
+        lines, runs = [], []
+        for k in ks:
+            lines += skip_lines(nh, d, k)
+            runs.append([hx(d), k])
+        # every truncation of the data (the reader reports end of file there, no injected error)
+        cuts = range(0, len(d)) if len(d) <= 140 else [t for t in ks if t < len(d)]
+        for t in cuts:
+            lines += skip_lines(nh, d[:t], t + 1)
+            runs.append([hx(d[:t]), t + 1])
+        yield Case(lines, {"kind": "skip", "op": "skip", "nh": nh, "full": hx(d), "runs": runs, "dlen": len(d)})
+    # every first next_header value on short random data, every k
+    for nh in range(256):
+        d = rbytes(rng, rng.choice([0, 1, 2, 7, 8, 9, 16, 24]))
+        if d and rng.random() < 0.7:
+            b = bytearray(d)
+            b[0] = rng.choice(NOT_SKIPPABLE + SKIPPABLE)
+            if len(b) > 1:
+                b[1] = rng.choice([0, 0, 1, 2, b[1]])
+            d = bytes(b)
+        lines, runs = [], []
+        for k in range(0, len(d) + 2):
+            lines += skip_lines(nh, d, k)
+            runs.append([hx(d), k])
+        yield Case(lines, {"kind": "skip", "op": "skip", "nh": nh, "full": hx(d), "runs": runs, "dlen": len(d)})
+
+
+def ref_skip(nh, data, k, all_headers):
+    """reference result (python, written from the RFC header lengths): ('ok', next, pos) if every byte
+    of the skipped header(s) lies in front of the failure position / the end of the data, else
+    ('err', kind)."""
+    avail = min(k, len(data))
+    err = "err(io)" if k <= len(data) else "err(eof)"
+    pos = 0
+    while nh in SKIPPABLE:
+        if nh == 44:
+            ln = 8
+        elif pos + 2 > avail:
+            return ("err", err)  # not even the length byte is there
+        else:
+            ln = ext_header_len(nh, data[pos + 1])
+        if pos + ln > avail:
+            return ("err", err)
+        nh = data[pos]
+        pos += ln
+        if not all_headers:
+            break
+    return ("ok", nh, pos)
+
+
+_SK = re.compile(r"^(ok\((\d+)\)|err\(\w+\));pos=(\d+);post=(\d+)$")
+
+
+def oracle_skip(c, out):
+    nh = c.meta["nh"]
+    for i, (dh, k) in enumerate(c.meta["runs"]):
+        data = unhex(dh)
+        for j, all_headers in ((0, False), (1, True)):
+            o = c.impl[2 * i + j] or ""
+            m = _SK.match(o)
+            if not m:
+                out.append(("skip-no-panic", {"line": c.lines[2 * i + j], "impl": o}))
+                return
+            res, pos, post = m.group(1), int(m.group(3)), int(m.group(4))
+            want = ref_skip(nh, data, k, all_headers)
+            if post != 0:
+                out.append(("skip-call-after-error", {"line": c.lines[2 * i + j], "impl": o}))
+                return
+            if want[0] == "err":
+                if res.startswith("ok"):
+                    out.append(("skip-ok-on-cut-header", {"line": c.lines[2 * i + j], "impl": o, "available": min(k, len(data))}))
+                    return
+                if res != want[1]:
+                    out.append(("skip-error-reported", {"line": c.lines[2 * i + j], "impl": o, "want": want[1]}))
+                    return
+            else:
+                if res != "ok(%d)" % want[1] or pos != want[2]:
+                    out.append(("skip-complete", {"line": c.lines[2 * i + j], "impl": o, "want": "ok(%d);pos=%d" % (want[1], want[2])}))
+                    return
+
+
+# ----------------------------------------------------------------------------------------------
+# PacketBuilder, every path (the configuration grammar and the python reference builder of C10)
+
+BFILL = 0xAA
+B_LV = [("none", "none"), ("eth", "none"), ("eth", "s"), ("eth", "d"), ("eth", "vs"), ("eth", "vd"), ("sll", "none")]
+B_TP_CORE = ["udp", "tcp", "i4_t", "i6_t", "raw"]
+B_TP_MORE = ["tcp_el", "tcph", "i4_raw", "i4_ereq", "i4_erep", "i6_raw", "i6_ereq", "i6_erep"]
+
+
+def small_net(rng, nk, exts):
+    """a C10 net section with small extension headers; IPv4 `ip(..)` headers mostly carry options"""
+    n = B.r_net(rng, nk, exts)
+    if n[0] == "ip4":
+        if rng.random() < 0.8:
+            n[1]["opts"] = rbytes(rng, 4 * rng.choice([1, 1, 2, 3, 5, 10]))
+        if n[2] is not None and len(n[2][3]) > 16:
+            n = ("ip4", n[1], n[2][:3] + (rbytes(rng, 4 * rng.choice([0, 1, 2])),))
+    if n[0] == "ip6":
+        e = n[2]
+        for name in list(e):
+            x = e[name]
+            if name in ("hbh", "dst", "rt", "fd") and len(x[1]) > 22:
+                e[name] = (x[0], rbytes(rng, 6 + 8 * rng.choice([0, 1, 2])))
+            if name == "au" and len(x[3]) > 16:
+                e[name] = x[:3] + (rbytes(rng, 4 * rng.choice([0, 1, 2])),)
+    if n[0] == "arp" and len(n[4]) + len(n[5]) > 40 and rng.random() < 0.8:
+        hl, pl = rng.choice([6, 0, 1, 8]), rng.choice([4, 0, 16])
+        n = n[:4] + (rbytes(rng, hl), rbytes(rng, pl), rbytes(rng, hl), rbytes(rng, pl))
+    return n
+
+
+def layer_marks(c, ref, n_payload):
+    """byte offsets at which a new layer starts in the complete output"""
+    l = {"none": 0, "eth": 14, "sll": 16}[c["link"][0]]
+    v = {"none": 0, "s": 4, "d": 8, "vs": 4, "vd": 8}[c["vlan"][0]]
+    net = c["net"]
+    ip = {"v4": 20, "v6": 40, "arp": 0}.get(net[0])
+    if net[0] == "ip4":
+        ip = 20 + len(net[1]["opts"])
+    if net[0] == "ip6":
+        ip = 40
+    total = ref.size or 0
+    return [l, l + v, l + v + ip, max(0, total - n_payload)]
+
+
+def build_case(rng, c, p, slicebuf=True):
+    """one configuration: `write` into a failing writer at every k and `write_to_slice` with every
+    capacity; the reference (python, C10's `ref_build`) is stored in the meta data."""
+    payload = B.payload_bytes(p)
+    ref = B.ref_build(c, payload)
+    if ref.status == "ctor" or ref.size is None:
+        return None
+    complete = ref.bytes if ref.status == "ok" else ref.written
+    text, parg = B.cfg_text(c), B.payload_arg(p)
+    marks = layer_marks(c, ref, len(payload))
+    ks = ks_for(rng, len(complete), marks) + [BIG]
+    if ref.size <= 400:
+        caps = ks_for(rng, ref.size, marks + [len(complete)]) + [ref.size + 9]
+    else:
+        caps = sorted(set([0, 1, ref.size - 1, ref.size, ref.size + 1] + [m for m in marks if m <= ref.size]))
+    sop = "build.slicebuf" if slicebuf else "build.slice"
+    lines = ["build.failw\t%s\t%s\t%d" % (text, parg, k) for k in ks]
+    lines += ["%s\t%s\t%s\t%d" % (sop, text, parg, cap) for cap in caps]
+    meta = {
+        "kind": "gbuild", "op": "build", "path": B.path_name(c), "payload": parg, "ks": ks, "caps": caps, "slicebuf": slicebuf,
+        "status": ref.status, "complete": hx(complete), "size": ref.size, "err": ref.err, "len": len(complete),
+    }
+    return Case(lines, meta)
+
+
+def gen_gbuild_cases(rng, tier):
+    quick = tier == "quick"
+    all_sets = []
+    for m in range(64):
+        s = [B.EXT6[i] for i in range(6) if m >> i & 1]
+        if "fd" in s and "rt" not in s:
+            continue
+        all_sets.append(s)
+    base_sets = [[], ["fr"], ["au"], ["hbh", "dst"], ["rt", "fd"], list(B.EXT6)]
+    reps = 1 if quick else 6
+    for rep in range(reps):
+        ext_sets = base_sets + rng.sample([s for s in all_sets if s not in base_sets], 2 if quick else 8)
+        nets = [("v4", None), ("v6", None), ("ip4", None), ("ip4au", None)] + [("ip6", s) for s in ext_sets]
+        for lk, vk in B_LV:
+            if lk != "none":
+                for _ in range(2):
+                    c = dict(link=B.r_link(rng, lk), vlan=B.r_vlan(rng, vk), net=small_net(rng, "arp", None), tp=("none",))
+                    bc = build_case(rng, c, ("hex", b""))
+                    if bc is not None:
+                        yield bc
+            for nk, exts in nets:
+                tps = B_TP_CORE + rng.sample(B_TP_MORE, 1 if quick else 3)
+                for tk in tps:
+                    for _ in range(8):
+                        c = dict(link=B.r_link(rng, lk), vlan=B.r_vlan(rng, vk), net=small_net(rng, nk, exts), tp=B.r_tp(rng, tk))
+                        n = rng.choice([0, 1, 2, 3, 7, 8, rng.randrange(0, 24)])
+                        bc = build_case(rng, c, ("hex", rbytes(rng, n)))
+                        if bc is not None:
+                            yield bc
+                            break
+    # payloads beyond the limit of the stack: `write` fails on its own behind the link / VLAN headers
+    for lk, vk in B_LV:
+        for nk, exts in (("v4", None), ("ip4au", None), ("v6", None), ("ip6", ["fr", "au"])):
+            if not quick or rng.random() < 0.3:
+                c = dict(link=B.r_link(rng, lk), vlan=B.r_vlan(rng, vk), net=small_net(rng, nk, exts), tp=B.r_tp(rng, rng.choice(["udp", "tcp", "raw", "i4_ereq"])))
+                lim = B.stack_limit(c)
+                if lim is None:
+                    continue
+                bc = build_case(rng, c, ("len", lim + rng.choice([1, 1, 2, 100]), rng.randrange(256)), slicebuf=False)
+                if bc is not None:
+                    yield bc
+
+
+_GS = re.compile(r"^(.*?)(?:;buf=([0-9a-f]+|-);canary=(\w+))?$")
+
+
+def oracle_gbuild(c, out):
+    m = c.meta
+    first = c.lines[0].split("\t")
+    if len(first) != 4 or first[2] != m["payload"]:
+        return  # a shrunk variant: the stored reference does not apply
+    complete, size, status = unhex(m["complete"]), m["size"], m["status"]
+    n = len(complete)
+    own = "ok" if status == "ok" else "err(%s)" % m["err"]
+    nk = len(m["ks"])
+    # --- write into a failing writer
+    for k, o, line in zip(m["ks"], c.impl[:nk], c.lines[:nk]):
+        mm = _W.match(o or "")
+        if not mm:
+            out.append(("gbuild-write-no-panic", {"k": k, "impl": (o or "")[:300], "line": line[:300]}))
+            return
+        res, w, post = mm.group(1), unhex(mm.group(2)), int(mm.group(3))
+        if post != 0:
+            out.append(("gbuild-write-call-after-error", {"k": k, "impl": o[:300], "line": line[:300]}))
+            return
+        if w != complete[: min(k, n)]:
+            out.append(("gbuild-write-prefix", {"k": k, "written": hx(w), "complete": m["complete"], "line": line[:300]}))
+            return
+        if k < n:
+            if res != "err(io)":
+                out.append(("gbuild-write-error-reported", {"k": k, "len": n, "got": res, "line": line[:300]}))
+                return
+        elif res != own:
+            out.append(("gbuild-write-result", {"k": k, "len": n, "got": res, "want": own, "line": line[:300]}))
+            return
+    # --- write_to_slice
+    for cap, o, line in zip(m["caps"], c.impl[nk:], c.lines[nk:]):
+        mm = _GS.match(o or "")
+        res, buf, canary = mm.group(1), mm.group(2), mm.group(3)
+        if "!" in res or res in ("panic", "bad-op", "") or res.startswith("fault("):
+            out.append(("gbuild-slice-no-panic", {"cap": cap, "impl": (o or "")[:300], "line": line[:300]}))
+            return
+        if m["slicebuf"]:
+            if buf is None or canary != "intact" or len(unhex(buf)) != cap:
+                out.append(("gbuild-slice-canary", {"cap": cap, "impl": (o or "")[:300], "line": line[:300]}))
+                return
+            buf = unhex(buf)
+        if cap < size:
+            if res != "err(Space(%d))" % size:
+                out.append(("gbuild-slice-required-length", {"cap": cap, "got": res[:200], "want_required": size, "line": line[:300]}))
+                return
+            if m["slicebuf"]:
+                # whatever was written is a prefix of the complete encoding, the rest is untouched
+                j = 0
+                while j < cap and j < n and buf[j] == complete[j]:
+                    j += 1
+                if any(x != BFILL for x in buf[j:]):
+                    out.append(("gbuild-slice-partial-garbage", {"cap": cap, "buf": hx(buf), "complete": m["complete"], "line": line[:300]}))
+                    return
+        else:
+            want = "ok(n=%d,len=%d,%s)" % (size, size, B.show_bytes(complete)) if status == "ok" else own
+            if res != want:
+                out.append(("gbuild-slice-result", {"cap": cap, "got": res[:300], "want": want[:300], "line": line[:300]}))
+                return
+            if m["slicebuf"] and buf != complete + bytes([BFILL]) * (cap - n):
+                out.append(("gbuild-slice-content", {"cap": cap, "buf": hx(buf), "complete": m["complete"], "line": line[:300]}))
+                return
+
 # ----------------------------------------------------------------------------------------------
 
 
@@ -678,13 +1027,15 @@ def generate(rng, tier):
     yield from gen_read_cases(rng, tier)
     yield from gen_limited_cases(rng, tier)
     yield from gen_build_cases(rng, tier)
+    yield from gen_skip_cases(rng, tier)
+    yield from gen_gbuild_cases(rng, tier)
 
 
 def is_trivial(c):
     k = c.meta.get("kind")
     if k == "limited":
         return len(c.meta["ops"]) < 2
-    if k == "read":
+    if k in ("read", "skip"):
         return c.meta["dlen"] < 2
     return c.meta.get("len", 2) < 2
 
@@ -703,6 +1054,10 @@ def oracle(c):
             oracle_limited(c, out)
         elif k == "bslice":
             oracle_build_slice(c, out)
+        elif k == "skip":
+            oracle_skip(c, out)
+        elif k == "gbuild":
+            oracle_gbuild(c, out)
     except (ValueError, IndexError, TypeError, AttributeError, KeyError) as e:
         out.append(("malformed-impl-output", {"impl": [str(x)[:200] for x in c.impl[:3]], "exc": repr(e)}))
     return out
@@ -715,4 +1070,5 @@ def extra_coverage(cases):
         key = "%s.%s" % (c.meta.get("kind"), c.meta.get("op", ""))
         h[key] = h.get(key, 0) + 1
         lines += len(c.lines)
-    return {"values_per_operation": h, "fault_positions_run": lines}
+    paths = set(c.meta["path"] for c in cases if c.meta.get("kind") == "gbuild")
+    return {"values_per_operation": h, "fault_positions_run": lines, "general_builder_paths": len(paths)}
